@@ -54,6 +54,11 @@ type Prop struct {
 	// violation only if the same case, replayed alone with twice the budget,
 	// stops making progress again.
 	CaseBudget func(tier string) time.Duration
+	// NoPar switches the concurrent-private-instances phase off (checks whose
+	// monitors watch process-wide state); ParSkip overrides how many leading
+	// case indices (long deterministic cases) that phase leaves out.
+	NoPar   bool
+	ParSkip func(tier string) int
 }
 
 // HangExit is the exit status of a child that stopped itself because one
@@ -452,6 +457,9 @@ func ParentMain(p *Prop, tier, verifDir, outDir string) int {
 	}
 	dwg.Wait()
 	run.Extra["child_output_bytes"] = outBytes
+	if raceExe := os.Getenv("VERIF_RACE_EXE"); raceExe != "" && !p.NoPar {
+		runParPhase(p, raceExe, tier, seed, n, work, run, addViol)
+	}
 	for name, v := range calls {
 		run.Counters["call:"+name] = v
 	}
@@ -728,6 +736,9 @@ func ReplayMain(path, verifDir string) int {
 	if p == nil {
 		fmt.Println("unknown property", v.Property)
 		return 2
+	}
+	if v.Par {
+		return replayPar(p, &v)
 	}
 	if v.Index < 0 {
 		fmt.Println("this violation was observed at process level (no single case); re-run the check itself")
